@@ -11,6 +11,7 @@ A case is a JSON object
   {"rlimit": n,
    "params": [{"key": K, "name": str|null, "values": [int|float|str...], "label": str|[str...]|null}],
    "steps":  [{"name": s, "description": d, "run": {"cmd":..., "depends": [...], "restart":..., ...}}],
+   "ltoken": str?   (label token of a custom ParameterGenerator(ltoken=...); model: LTK)
    "stream": "...", "restage": ["same"|"toggle"|"meta", ...]?}   (restage: see stage_all)
 Observable of a staging: the used-parameter table (`study.used_params`), and
 for every node of the ExecutionGraph in `values` order: name, adjacency list,
@@ -29,6 +30,11 @@ prefixes of one another, the case repaired by 90c92b9) | exotic (custom labels
 that collide = K2, instance names equal to step names = K2b, references to
 non-ancestors, adjacent workspace references, dangling/late dependencies,
 empty value lists ...) | tiny (exhaustive small scope).
+
+Not generated: a non-default PARAMETER token (ParameterGenerator(token="@")).  The unchanged tree
+mishandles it (get_combinations builds Combination() with the default "$": "@(N)" is detected as a use
+but never substituted, "$(N)" is substituted only if some "@(...)" made the step parameterised, and an
+alphanumeric token makes the regex raise) -- reported to the coordinator as a witness, outside C08's model.
 
 Verdict per case (`classify`): the monitor `C08_ok` false on the implementation's
 graph inside H8 (`hygb`, the hypothesis of theorem C08_monitor_holds) is a
@@ -98,7 +104,9 @@ def build_study(case, root):
     env = StudyEnvironment()
     env.add(Variable("OUTPUT_PATH", root))
     env.add(Variable("SPECROOT", os.path.dirname(root)))
-    params = ParameterGenerator()
+    # a custom pgen may construct the generator with its own label token (the parameter token `token`
+    # stays "$": get_combinations builds Combination() with the default token, see the module docstring)
+    params = ParameterGenerator(ltoken=case["ltoken"]) if case.get("ltoken") is not None else ParameterGenerator()
     for p in case["params"]:
         if p.get("name"):
             params.add_parameter(p["key"], list(p["values"]), p.get("label"), p["name"])
@@ -226,6 +234,8 @@ def g_spec(case, root="/R"):
         lab = p.get("label")
         if isinstance(lab, list):
             gl = "(LL %s)" % g_strs([str(x) for x in lab])
+        elif case.get("ltoken") is not None:
+            gl = "(LTK %s %s)" % (g_str(case["ltoken"]), g_str(lab or ""))
         else:
             gl = "(LT %s)" % g_str(lab or "")
         ps.append("P_ %s %s %s %s" % (g_str(p["key"]), g_str(p.get("name") or ""),
@@ -276,6 +286,9 @@ STEP_NAMES = ["a", "b", "c", "ab", "a_b", "a-b", "gen", "sim", "post-1", "s2", "
 KEYS_FREE = ["SIZE", "ITER", "N", "T_1", "alpha", "B2", "MAT-ID", "T:1", "x@y", "p~q", "a,b", "W!", "k=v", "pc%"]
 KEYS_PREFIX = ["SIZE", "SIZEX", "SIZEXY", "N", "NX", "N_", "A", "AB", "MAT-ID", "MAT", "ID", "MAT-ID2", "MAT-", "A:B", "A:"]
 STR_VALS = ["x", "y", "lo", "hi", "v1", "v-2", "a.b", "Q"]
+# label tokens of a custom ParameterGenerator(ltoken=...): plain, multi-character, regex metacharacters, format braces
+LTOKENS = ["##", "@", "<>", "%", "#", "@@@", ".*", "(", "[a]", "\\", "{}", "+", "%%%", "$", "^%%"]
+LTOKENS_EXOTIC = ["N", ".", "1", "_", "SIZE", "%% "]      # overlap keys / values / separators
 
 
 def gen_values(rng, n, kind=None):
@@ -294,7 +307,7 @@ def gen_label(rng, key, values, exotic=False):
     if r < 0.55:
         return "%s.%%%%" % key
     if r < 0.70:
-        return rng.choice(["%%", key + "%%", "p_%%", "%%-" + key.lower(), "L.%%.e"])
+        return rng.choice(["%%", key + "%%", "p_%%", "%%-" + key.lower(), "L.%%.e", "v%%-%%"])
     if r < 0.80:
         return None                                 # ParameterGenerator's default
     if r < 0.92 or not exotic:
@@ -365,6 +378,12 @@ def gen_case(rng, stream):
         vals = gen_values(rng, nrows)
         params.append({"key": k, "name": rng.choice([None, None, k.lower() + "_nm", "Name of " + k]),
                        "values": vals, "label": gen_label(rng, k, vals, exotic)})
+    ltoken = None
+    if rng.random() < 0.25:
+        ltoken = rng.choice(LTOKENS + (LTOKENS_EXOTIC if exotic else []))
+        for p in params:           # templates are written with the generator's own token (once / twice); in the
+            if isinstance(p["label"], str) and not (exotic and rng.random() < 0.2):   # exotic stream some keep "%%" = no token at all
+                p["label"] = p["label"].replace("%%", ltoken)
     likes = keys + [k for k in pool if k not in keys][:2]
     dep_idx = []
     steps = []
@@ -403,9 +422,9 @@ def gen_case(rng, stream):
         r = rng.random()
         if r < 0.15 and keys and steps:            # an instance name equal to a step name
             p = params[0]
-            lab = p["label"] if isinstance(p["label"], str) and p["label"] else "%s.%%%%" % p["key"]
+            lab = p["label"] if isinstance(p["label"], str) and p["label"] else "%s.%s" % (p["key"], ltoken or "%%")
             if p["values"]:
-                extra = "%s_%s" % (steps[0]["name"], lab.replace("%%", str(p["values"][0])))
+                extra = "%s_%s" % (steps[0]["name"], lab.replace(ltoken or "%%", str(p["values"][0])))
                 steps[0]["run"]["cmd"] += " $(%s)" % p["key"]
                 if extra not in [s["name"] for s in steps]:
                     steps.insert(rng.randint(0, len(steps)),
@@ -422,7 +441,10 @@ def gen_case(rng, stream):
             steps[-1]["run"]["cmd"] += " $(%s.workspace)/$(%s.workspace)" % (steps[0]["name"], steps[0]["name"])
         elif r < 0.55 and len(steps) >= 2:         # duplicate step name
             steps[-1]["name"] = steps[0]["name"]
-    return {"rlimit": rng.choice([0, 1, 3]), "params": params, "steps": steps, "stream": stream}
+    case = {"rlimit": rng.choice([0, 1, 3]), "params": params, "steps": steps, "stream": stream}
+    if ltoken is not None:
+        case["ltoken"] = ltoken
+    return case
 
 
 def gen_sibling(rng, base):
@@ -431,13 +453,18 @@ def gen_sibling(rng, base):
     before `base` is staged, it exposes tables shared between the objects of different studies."""
     import copy
     c = copy.deepcopy({k: base[k] for k in ("rlimit", "params", "steps")})
+    lt = rng.choice([None, None, "%%", "##", "@", "<>"])      # its own label token
+    if lt is not None:
+        c["ltoken"] = lt
     nrows = rng.randint(1, 5)
     for p in c["params"]:
         k = p["key"]
         p["values"] = gen_values(rng, nrows)
         p["name"] = rng.choice([None, "cells", k.lower() + "_sib", "Sibling " + k])
-        p["label"] = rng.choice(["n%%", "%%_" + k[:1].lower(), "s.%%", k + "-%%",
+        p["label"] = rng.choice(["n%%", "%%_" + k[:1].lower(), "s.%%", k + "-%%", None,
                                  ["r%d" % (i % 3) + str(v).replace(".", "_") for i, v in enumerate(p["values"])]])
+        if isinstance(p["label"], str):
+            p["label"] = p["label"].replace("%%", lt or "%%")
     for st in c["steps"]:
         if rng.random() < 0.5:
             st["run"]["cmd"] = st["run"]["cmd"] + rng.choice(["", " # sib", " $(%s.label)" % c["params"][0]["key"]
@@ -488,10 +515,22 @@ def tiny_cases():
     once with the keys N/NX (all value patterns, with and without a workspace reference) and
     once with the punctuated keys MAT/MAT-ID (one value pattern)."""
     return _tiny("N", "NX", (([1, 1], [1, 2]), ([1, 2], [3, 3]), ([1, 2], [1, 2])), (False, True)) + \
-        _tiny("MAT", "MAT-ID", (([1, 1], [1, 2]),), (False,))
+        _tiny("MAT", "MAT-ID", (([1, 1], [1, 2]),), (False,)) + \
+        _tiny("N", "NX", (([1, 2], [3, 3]),), (False,), ltoken="##")
 
 
-def _tiny(k1, k2, valpats, wsrefs):
+def _tiny(k1, k2, valpats, wsrefs, ltoken=None):
+    """with `ltoken`: a generator with its own label token; k1 gets the default label, k2 a template"""
+    out = _tiny0(k1, k2, valpats, wsrefs)
+    if ltoken is not None:
+        for c in out:
+            c["ltoken"] = ltoken
+            c["params"][0]["label"] = None
+            c["params"][1]["label"] = "%s.%s" % (k2, ltoken)
+    return out
+
+
+def _tiny0(k1, k2, valpats, wsrefs):
     out = []
     for dep in (None, "a", "a_*"):
         for ua in range(4):
@@ -540,7 +579,7 @@ def load_corpus(pid=PID):
 
 
 def case_key(case):
-    return json.dumps({k: case.get(k) for k in ("rlimit", "params", "steps", "restage")}, sort_keys=True)
+    return json.dumps({k: case.get(k) for k in ("rlimit", "params", "steps", "restage", "ltoken")}, sort_keys=True)
 
 
 def nontrivial(case, o):
@@ -908,7 +947,8 @@ def run(ck):
     ck.cov["rule"] = ("corpus + exhaustive tiny scope (2 steps x dependency kind x which of the prefix-named parameters N/NX "
                       "each step mentions x value patterns) + seeded structured specifications (1-6 steps, ordinary and "
                       "funnel dependencies mixed, 0-4 parameters x 0-5 rows with repeated int/float/str values, template and "
-                      "per-row labels, value/label/name tokens and near-miss tokens in cmd/restart/description/resource keys, "
+                      "per-row labels, a custom label token ParameterGenerator(ltoken=..) in a quarter of the cases (plain / multi-character / "
+                      "regex-special tokens; templates using it once, twice, not at all; default labels), value/label/name tokens and near-miss tokens in cmd/restart/description/resource keys, "
                       "workspace references) in streams valid/prefix/exotic; distinct = distinct (rlimit, params, steps); "
                       "non-trivial = staged successfully with at least two instances; INTERLEAVING: the cases are processed in "
                       "batches of up to 4 (histogram 'batches': size, * = staged in another order than built): every "
